@@ -1069,6 +1069,8 @@ class Step:
         fits = _shape_compatible(w.schema, o.t, o.node, src.node) and _same_caps(w.schema, o.t, o.node, src.node)
         if not (same_size or fits):
             raise Skip()  # may legitimately be refused
+        if same_size and self._inner_referenced(o.t, o.node):
+            raise Skip()  # references into the replaced object would be left pointing at reshuffled bytes
         start = o.handle() if op.get("via") == "handle" and o.hnd is not None else o.view()
         self._allow_path(o, [])
         self.res.features.add(f"update_whole:{typegen.features(w.schema, o.t)}:{'same_size' if same_size else 'fits'}:{op.get('via')}")
